@@ -423,6 +423,13 @@ class Interp:
             if ci is None:
                 # a library / built-in object whose attribute has no model: undecided, never an AttributeError
                 raise Unsupported(f'no model for {obj.cls}.{name}')
+            if name.startswith('__') and name.endswith('__'):
+                # special attributes (__dict__, __class__, ...) exist on every object: no model, undecided
+                raise Unsupported(f'special attribute {name} of an instance of {ci.name}')
+            if not all(isinstance(c, ClassInfo) or c.split('.')[-1].split('[')[0] in (
+                    'object', 'ABC', 'Protocol', 'Generic', 'Exception', 'BaseException') for c in self.repo.mro(ci)):
+                # a library base class may well define it
+                raise Unsupported(f'attribute {name} of an instance of {ci.name} (library base class, no model)')
             self.raise_builtin('AttributeError', f'{obj!r}.{name}')
         if isinstance(obj, ClsRef):
             if isinstance(obj.info, ClassInfo):
